@@ -145,7 +145,7 @@ for _n, _f in [("sum_dim", lambda a: a.sum(dim=-1)), ("sum_dims", lambda a: a.su
                ("take_along_dim", lambda a: torch.take_along_dim(a, torch.zeros(a.shape[:-1] + (1,), dtype=torch.long), dim=-1)),
                ("tril", lambda a: a.tril()), ("triu", lambda a: torch.triu(a, 1)), ("diagonal", lambda a: a.diagonal(dim1=-2, dim2=-1)),
                ("einsum_ij_j", lambda a: torch.einsum("...j,...j->...", a, a) if False else torch.einsum("ij,ij->i", a.reshape(-1, a.shape[-1]), a.reshape(-1, a.shape[-1]))),
-               ("einsum_outer", lambda a: torch.einsum("i,j->ij", a.reshape(-1)[:2], a.reshape(-1)[:3])), ("einsum_implicit", lambda a: torch.einsum("ij,jk", a.reshape(-1, a.shape[-1]), a.reshape(-1, a.shape[-1]).T)),
+               ("einsum_ellipsis", lambda a: torch.einsum("...i,...i->...", a, a * 2)), ("einsum_outer", lambda a: torch.einsum("i,j->ij", a.reshape(-1)[:2], a.reshape(-1)[:3])), ("einsum_implicit", lambda a: torch.einsum("ij,jk", a.reshape(-1, a.shape[-1]), a.reshape(-1, a.shape[-1]).T)),
                ("dot", lambda a: torch.dot(a.reshape(-1), a.reshape(-1) + 1)), ("outer", lambda a: torch.outer(a.reshape(-1)[:2], a.reshape(-1)[:3])),
                ("mv", lambda a: torch.mv(a.reshape(-1, a.shape[-1]), a.reshape(-1)[: a.shape[-1]])), ("bmm", lambda a: torch.bmm(a.reshape(1, -1, a.shape[-1]), a.reshape(1, -1, a.shape[-1]).transpose(1, 2))),
                ("trapezoid", lambda a: torch.trapezoid(a, dx=0.5, dim=-1))]:
@@ -252,7 +252,9 @@ def run(smoke=False):
         pass
     res = {"cases": n, "axiom_instances_evaluated": n_ax, "normal_form_evaluations": n_nf, "failures": fails, "specs": len(SPECS), "alias_tests": len(ALIAS), "seconds": round(time.time() - t0, 2), "smoke": smoke,
            "torch": torch.__version__}
-    with open(os.path.join(ROOT, "conformance", "result.json"), "w") as fh:
+    outdir = os.environ.get("VERIF_EVIDENCE_DIR") or os.path.join(ROOT, "conformance")
+    os.makedirs(outdir, exist_ok=True)
+    with open(os.path.join(outdir, "result.json" if outdir.endswith("conformance") else "conformance_result.json"), "w") as fh:
         json.dump(res, fh, indent=1)
     print("conformance: %d handler cases, %d axiom instances, %d term evaluations, %d failures (%.1fs)" % (n, n_ax, n_nf, len(fails), res["seconds"]))
     for x in fails[:20]:
